@@ -1,9 +1,15 @@
-// C12 (b) -- engine E straight-line pass over all texts up to a length bound:
+// C12 (b) -- engine E straight-line pass over all texts up to a length bound
+// (variants: wide-only wchar_t alphabet; char alphabet with the bytes 0xFF/0x80; parse stream built on a std
+// stream from which 1 or 2 characters were already read; every one- and two-byte text; fcppt::io::get/peek on
+// all byte values):
 // read everything while saving the position before every character, read past the end,
 // rewind to every saved position (from the end-of-input state, descending; and from a
 // healthy state, ascending) and re-read; every character and every position is compared
 // with the model and every re-observed position with the one saved at the same index.
 #include "C12_common.hpp"
+
+#include <fcppt/io/get.hpp>
+#include <fcppt/io/peek.hpp>
 
 namespace
 {
@@ -11,17 +17,18 @@ using namespace c12;
 
 template <class Ch> struct runner
 {
-  std::basic_string<Ch> const &text;
+  std::basic_string<Ch> const text; // what the parse stream reads (the content after the characters read in advance)
   string_world<Ch> w;
+  long long const base; // see position_diff: offsets are compared only for streams built on a fresh std stream
   std::vector<position<Ch>> saved;
   std::string const t = std::string("<") + cname<Ch>::v + ">";
 
-  explicit runner(std::basic_string<Ch> const &tx) : text(tx), w(tx) {}
+  explicit runner(std::basic_string<Ch> const &full, std::size_t skip = 0) : text(full.substr(skip)), w(full, skip), base(skip == 0 ? 0 : -1) {}
 
   void expect_pos(std::size_t i, char const *phase)
   {
     position<Ch> const p = fcppt::parse::get_position(w.ref());
-    std::string const d = position_diff(p, text, i);
+    std::string const d = position_diff(p, text, i, base);
     VRT_CHECK(d.empty(), "get_position" + t + ":wrong:" + phase, "at index %zu of %s: %s", i, show_text(text).c_str(), d.c_str());
     if (i < saved.size())
       VRT_CHECK(p == saved[i], "get_position" + t + ":differs_from_saved:" + phase,
@@ -86,10 +93,10 @@ template <class Ch> struct runner
   }
 };
 
-template <class Ch> void one_text(char const *fn, int alphabet, int len, std::uint32_t code)
+template <class Ch> void run_text(char const *fn, std::basic_string<Ch> const &text, std::size_t skip)
 {
-  std::basic_string<Ch> const text = make_text<Ch>(alphabet, len, code);
-  if (!vrt::begin_text(fn, std::string("read all / rewind all on ") + show_text(text)))
+  if (!vrt::begin_text(fn, std::string("read all / rewind all on ") + show_text(text) +
+                               (skip ? vrt::fmt(", parse stream built after %zu istream::get()", skip) : std::string())))
     return;
   bool nl = false;
   for (Ch c : text)
@@ -98,13 +105,26 @@ template <class Ch> void one_text(char const *fn, int alphabet, int len, std::ui
   vrt::maybe_sample();
   try
   {
-    runner<Ch> r(text);
+    runner<Ch> r(text, skip);
     r.run();
   }
   catch (fcppt::parse::detail::exception<Ch> const &e)
   {
     vrt::fail(std::string("stream<") + cname<Ch>::v + ">:exception", "'" + narrow_msg(e.what()) + "' on a healthy string stream");
   }
+}
+
+// skip_max > 0: the parse stream is built after 1..skip_max characters were read from the std stream
+int SKIP_MAX = 0;
+
+template <class Ch> void one_text(char const *fn, int alphabet, int len, std::uint32_t code)
+{
+  std::basic_string<Ch> const text = make_text<Ch>(alphabet, len, code);
+  if (SKIP_MAX == 0)
+    run_text<Ch>(fn, text, 0);
+  else
+    for (std::size_t k = 1; k <= static_cast<std::size_t>(SKIP_MAX) && k <= text.size(); ++k)
+      run_text<Ch>(fn, text, k);
 }
 
 // shard `part` of 16: texts whose first two letters are `part` (texts shorter than 2 go to part 0)
@@ -140,8 +160,105 @@ void c12::register_straight()
                [part] { straight_part<wchar_t>("straight<wchar_t>", 0, vrt::thorough() ? 12 : 10, part); });
   }
   for (unsigned part = 0; part < 16; part += 4)
+  {
     vrt::shard("straight<wchar_t,wide>/" + std::to_string(part), [part] {
       for (unsigned p = part; p < part + 4; ++p)
         straight_part<wchar_t>("straight<wchar_t,wide>", 1, vrt::thorough() ? 9 : 7, p);
+    });
+    // bytes 0xFF / 0x80 (negative as char; 0xFF collides with eof after narrowing)
+    vrt::shard("straight<char,bytes>/" + std::to_string(part), [part] {
+      for (unsigned p = part; p < part + 4; ++p)
+        straight_part<char>("straight<char,bytes>", 2, vrt::thorough() ? 10 : 8, p);
+    });
+    // parse stream built on a std stream from which 1 or 2 characters were already read
+    vrt::shard("straight<char,prefix>/" + std::to_string(part), [part] {
+      SKIP_MAX = 2;
+      for (unsigned p = part; p < part + 4; ++p)
+        straight_part<char>("straight<char,prefix>", 0, vrt::thorough() ? 10 : 8, p);
+    });
+    vrt::shard("straight<wchar_t,prefix>/" + std::to_string(part), [part] {
+      SKIP_MAX = 2;
+      for (unsigned p = part; p < part + 4; ++p)
+        straight_part<wchar_t>("straight<wchar_t,prefix>", 0, vrt::thorough() ? 10 : 8, p);
+    });
+    vrt::shard("straight<char,bytes,prefix>/" + std::to_string(part), [part] {
+      SKIP_MAX = 2;
+      for (unsigned p = part; p < part + 4; ++p)
+        straight_part<char>("straight<char,bytes,prefix>", 2, vrt::thorough() ? 8 : 6, p);
+    });
+  }
+}
+
+// ---------------------------------------------------------------- all 256 byte values
+namespace
+{
+// fcppt::io::get / fcppt::io::peek: "Returns an empty optional for end-of-file" -- and therefore the character
+// for every character, whatever its value.  Stream content: `len` characters c0 [c1].
+template <class Ch> void io_case(char const *fn, int len, std::uint32_t v0, std::uint32_t v1)
+{
+  if (!vrt::begin(fn, len, v0, v1))
+    return;
+  Ch const c[2] = {static_cast<Ch>(static_cast<std::make_unsigned_t<Ch>>(v0)), static_cast<Ch>(static_cast<std::make_unsigned_t<Ch>>(v1))};
+  // non-trivial: a value that is negative as Ch or does not fit 7 bits
+  vrt::nontrivial(v0 > 127 || (len == 2 && v1 > 127));
+  vrt::maybe_sample();
+  std::string const t = std::string("<") + cname<Ch>::v + ">";
+  std::basic_istringstream<Ch> is(std::basic_string<Ch>(c, static_cast<std::size_t>(len)));
+  for (int i = 0; i <= len + 1; ++i)
+  {
+    if (i == len + 1)
+      is.clear(); // second round at the end: on a stream whose eof/fail flags were reset
+    fcppt::optional::object<Ch> const pk = fcppt::io::peek(is);
+    fcppt::optional::object<Ch> const gt = fcppt::io::get(is);
+    if (i < len)
+    {
+      VRT_CHECK(pk.has_value() && pk.get_unsafe() == c[i], "io::peek" + t + ":wrong", "character %d of %d is %s, peek returned %s", i, len,
+                show_char(c[i]).c_str(), show_opt(pk).c_str());
+      VRT_CHECK(gt.has_value() && gt.get_unsafe() == c[i], "io::get" + t + ":wrong", "character %d of %d is %s, get returned %s", i, len,
+                show_char(c[i]).c_str(), show_opt(gt).c_str());
+    }
+    else
+    {
+      VRT_CHECK(!pk.has_value(), "io::peek" + t + ":char_at_end", "at the end: peek returned %s", show_opt(pk).c_str());
+      VRT_CHECK(!gt.has_value(), "io::get" + t + ":char_at_end", "at the end: get returned %s", show_opt(gt).c_str());
+    }
+  }
+}
+}
+
+void c12::register_bytes()
+{
+  // fcppt::io::get / peek on every one-byte stream and every two-byte stream
+  vrt::shard("io<char>", [] {
+    for (std::uint32_t a = 0; a < 256; ++a)
+      io_case<char>("io::get/peek<char>", 1, a, 0);
+    for (std::uint32_t a = 0; a < 256; ++a)
+      for (std::uint32_t b = 0; b < 256; ++b)
+        io_case<char>("io::get/peek<char>", 2, a, b);
+  });
+  // wchar_t: every value below 0x20000, alone and followed by / following a newline (wchar_t(-1) is WEOF itself: excluded)
+  vrt::shard("io<wchar_t>", [] {
+    for (std::uint32_t a = 0; a < 0x20000U; ++a)
+    {
+      io_case<wchar_t>("io::get/peek<wchar_t>", 1, a, 0);
+      io_case<wchar_t>("io::get/peek<wchar_t>", 2, a, 0x0AU);
+      io_case<wchar_t>("io::get/peek<wchar_t>", 2, 0x0AU, a);
+    }
+  });
+  // the parse stream over every one-byte text and every two-byte text: full read-all / rewind-all schedule
+  for (unsigned part = 0; part < 4; ++part)
+    vrt::shard("bytes<char>/" + std::to_string(part), [part] {
+      for (std::uint32_t a = part * 64; a < (part + 1) * 64; ++a)
+      {
+        run_text<char>("stream_bytes<char>", std::string(1, static_cast<char>(static_cast<unsigned char>(a))), 0);
+        for (std::uint32_t b = 0; b < 256; ++b)
+        {
+          std::string tx;
+          tx += static_cast<char>(static_cast<unsigned char>(a));
+          tx += static_cast<char>(static_cast<unsigned char>(b));
+          run_text<char>("stream_bytes<char>", tx, 0);
+          run_text<char>("stream_bytes<char>", tx, 1);
+        }
+      }
     });
 }
